@@ -447,6 +447,10 @@ func c14Seq(tier, group string, depth int) func(r *vp.InstResult) {
 				it := frontier[0]
 				frontier = frontier[1:]
 				for oi, op := range ops {
+					if expired() {
+						r.Complete = false
+						return
+					}
 					if op.ncfg > it.ncfg {
 						continue
 					}
